@@ -29,6 +29,9 @@ func c16Opts(rng *vlib.Rng) idl.GenOpts {
 	o.Sparse = rng.Chance(1, 3)
 	o.Annotations = 0
 	o.NameStress = 0
+	if rng.Chance(1, 3) {
+		o.NameStress = 1 // snake_case names: match_go_name has something to convert
+	}
 	o.UnionDefault = false
 	return o
 }
@@ -50,11 +53,17 @@ func c16Args(rng *vlib.Rng, p *idl.Program) idl.TrimArgs {
 			}
 		}
 	}
+	a.MatchGoName = rng.Chance(1, 4)
 	if len(own)+len(inherited) > 0 && rng.Chance(3, 5) {
 		all := append(append([]fq{}, own...), inherited...)
 		n := rng.Range(1, 3)
 		for i := 0; i < n; i++ {
 			q := all[rng.Intn(len(all))]
+			if a.MatchGoName && rng.Chance(4, 5) {
+				// patterns are written the way the option documents them: against Go-converted method names
+				// (one in five keeps the raw IDL name, which then selects only what already is a Go name)
+				q.fn = idl.GoNameOf(q.fn)
+			}
 			switch rng.Intn(8) {
 			case 0: // unqualified name: belongs to the last service of the main file
 				a.Methods = append(a.Methods, q.fn)
@@ -81,14 +90,21 @@ func c16Args(rng *vlib.Rng, p *idl.Program) idl.TrimArgs {
 	if rng.Chance(1, 3) {
 		sl := p.AllStructLikes()
 		for i := 0; i < 2 && len(sl) > 0; i++ {
-			a.PreserveNames = append(a.PreserveNames, sl[rng.Intn(len(sl))].Name)
+			n := sl[rng.Intn(len(sl))].Name
+			if a.MatchGoName && rng.Chance(4, 5) {
+				n = idl.GoNameOf(n)
+			}
+			a.PreserveNames = append(a.PreserveNames, n)
 		}
+	}
+	if fs := p.ReachableFiles(); rng.Chance(1, 4) {
+		a.PreserveFiles = append(a.PreserveFiles, fs[rng.Intn(len(fs))].Path)
 	}
 	return a
 }
 
 func c16ArgString(a idl.TrimArgs) string {
-	return fmt.Sprintf("methods=%q preserve=%v preserve_comment=%v preserved_structs=%q", a.Methods, !a.NoPreserve, !a.NoPreserveComment, a.PreserveNames)
+	return fmt.Sprintf("methods=%q preserve=%v preserve_comment=%v preserved_structs=%q match_go_name=%v preserved_files=%q", a.Methods, !a.NoPreserve, !a.NoPreserveComment, a.PreserveNames, a.MatchGoName, a.PreserveFiles)
 }
 
 // c16Trim runs the real trimmer in-process on the program written under dir.
@@ -105,6 +121,13 @@ func c16Trim(mainPath string, a idl.TrimArgs) (root *parser.Thrift, feErr, err e
 	if a.NoPreserveComment {
 		t := true
 		arg.DisablePreserveComment = &t
+	}
+	if a.MatchGoName {
+		t := true
+		arg.MatchGoName = &t
+	}
+	for _, pf := range a.PreserveFiles {
+		arg.PreservedFiles = append(arg.PreservedFiles, filepath.Join(filepath.Dir(mainPath), pf))
 	}
 	// the library prints warnings on stdout
 	saved := os.Stdout
@@ -279,6 +302,9 @@ func c16Check(r *vlib.Run, c c16Case, dir string) map[string]string {
 	methodsTag := "no-filter"
 	if len(a.Methods) > 0 {
 		methodsTag = "method-filter"
+		if a.MatchGoName {
+			methodsTag = "method-filter-go-name"
+		}
 	}
 	present := map[*idl.Def]bool{}
 	for _, f := range e.Files {
@@ -308,6 +334,9 @@ func c16Check(r *vlib.Run, c c16Case, dir string) map[string]string {
 				r.Violation(fmt.Sprintf("C16/unneeded-%s-kept/%s/%s/%s", d.Kind, why, loc, methodsTag), fmt.Sprintf("%s %s of %s is not needed by anything kept but survives trimming%s", d.Kind, d.Name, f.Path, ctx()), c.replay())
 			case want == idl.MustStay:
 				r.Sigf("kept:%s:%s:%s", d.Kind, e.Reason[d], methodsTag)
+				if strings.Contains(e.Reason[d], "/itself/") {
+					r.Sig("preserved-by:" + strings.SplitN(e.Reason[d], "/", 2)[0])
+				}
 			case want == idl.MustGo:
 				r.Sigf("removed:%s:%s", d.Kind, methodsTag)
 			default:
@@ -341,6 +370,9 @@ func c16Check(r *vlib.Run, c c16Case, dir string) map[string]string {
 					r.Violation("C16/unselected-method-kept/"+c16SvcPos(p, d)+c16PrefixTag(a, d, fn), fmt.Sprintf("method %s.%s matches no -m pattern but survives%s", d.Name, fn.Name, ctx()), c.replay())
 				case e.Func[fn] == idl.MustStay:
 					r.Sigf("method-kept:%s:%s", methodsTag, c16SvcPos(p, d))
+					if a.MatchGoName && len(a.Methods) > 0 && idl.GoNameOf(fn.Name) != fn.Name {
+						r.Sig("method-selected-by-converted-name:" + c16SvcPos(p, d))
+					}
 				case e.Func[fn] == idl.MustGo:
 					r.Sigf("method-removed:%s", c16SvcPos(p, d))
 				}
@@ -611,8 +643,17 @@ func C16(r *vlib.Run) {
 		if b.c.args.NoPreserve {
 			args = append(args, "-p", "false")
 		}
-		if len(b.c.args.PreserveNames) > 0 || b.c.args.NoPreserveComment {
+		if len(b.c.args.PreserveNames) > 0 || b.c.args.NoPreserveComment || b.c.args.MatchGoName || len(b.c.args.PreserveFiles) > 0 {
 			y := ""
+			if b.c.args.MatchGoName {
+				y += "match_go_name: true\n"
+			}
+			if len(b.c.args.PreserveFiles) > 0 {
+				y += "preserved_files:\n"
+				for _, pf := range b.c.args.PreserveFiles {
+					y += "  - " + filepath.Join(b.dir, pf) + "\n"
+				}
+			}
 			if len(b.c.args.PreserveNames) > 0 {
 				y += "preserved_structs:\n"
 				for _, nme := range b.c.args.PreserveNames {
@@ -645,13 +686,21 @@ func C16(r *vlib.Run) {
 				if len(b.c.args.PreserveNames) > 0 {
 					r.Sig("binary-agrees-with-library:config-file")
 				}
+				if b.c.args.MatchGoName {
+					r.Sig("binary-agrees-with-library:match_go_name")
+				}
+				if len(b.c.args.PreserveFiles) > 0 {
+					r.Sig("binary-agrees-with-library:preserved_files")
+				}
 			}
 		}
 		os.RemoveAll(tout)
 		os.RemoveAll(cwd)
 		os.RemoveAll(b.dir)
 	}
-	r.Require("binary-agrees-with-library", "trimmed-set-valid:method-filter", "idempotent:no-filter", "kept:struct:preserved/itself/local:no-filter")
+	r.Require("binary-agrees-with-library", "trimmed-set-valid:method-filter", "idempotent:no-filter", "kept:struct:preserved/itself/local:no-filter",
+		"preserved-by:preserved-name", "preserved-by:preserved-go-name", "preserved-by:preserved-file", "method-selected-by-converted-name:main-service",
+		"method-selected-by-converted-name:main-service-with-base", "idempotent:method-filter-go-name", "binary-agrees-with-library:match_go_name", "binary-agrees-with-library:preserved_files")
 	// trim_idl: generated code of the trimmed program compiles and kept types keep their wire behaviour
 	s, err := harness.NewScratch("c16")
 	if err != nil {
